@@ -438,9 +438,16 @@ def main(argv):
         "wall_s": round(time.time() - t_start, 2),
         "violations": len(violations) + (1 if (broken and not violations) else 0),
     }
+    # harness statistics are extra coverage keys; keys the evidence schema types are renamed when the harness'
+    # value has another type, so a harness cannot make the evidence invalid
+    typed = {"states": int, "transitions": int, "programs": int, "disagreements_checked": int,
+             "explanation": str, "exhaustive": bool}
     for k, v in stats.items():
-        if k not in ev["coverage"] and k not in ("direct_violations", "shards"):
-            ev["coverage"][k] = v
+        if k in ev["coverage"] or k in ("direct_violations", "shards"):
+            continue
+        if k in typed and (not isinstance(v, typed[k]) or (typed[k] is int and isinstance(v, bool))):
+            k = "harness_" + k
+        ev["coverage"][k] = v
     # evidence/ only ever describes runs against /repo itself; runs against another checkout (VERIF_REPO,
     # used for seeded changes) write to .work/evidence_alt/
     evdir = os.path.join(ROOT, "evidence") if os.path.realpath(REPO) == "/repo" else os.path.join(WORK, "evidence_alt")
